@@ -306,6 +306,65 @@ def statement_end(body, start):
     raise ExtractionError('statement end not found')
 
 
+def decode_bytes_literal(lit):
+    out = []
+    i = 0
+    while i < len(lit):
+        c = lit[i]
+        if c == '\\':
+            n = lit[i + 1]
+            if n == 'x':
+                out.append(int(lit[i + 2:i + 4], 16))
+                i += 4
+                continue
+            m = {'n': 10, 'r': 13, 't': 9, '\\': 92, '0': 0, '"': 34, "'": 39}
+            if n not in m:
+                raise ExtractionError('unsupported escape in byte string literal: %r' % lit)
+            out.append(m[n])
+            i += 2
+            continue
+        if not (32 <= ord(c) < 127):
+            raise ExtractionError('non-ASCII byte string literal: %r' % lit)
+        out.append(ord(c))
+        i += 1
+    return out
+
+
+_BLIT = r'b"((?:[^"\\]|\\.)*)"'
+
+
+def find_inline_literals(body):
+    """Byte-string literals b"..." at code level (not inside comments / other strings)."""
+    out = []
+    i = 0
+    n = len(body)
+    while i < n:
+        j = _skip_trivia(body, i)
+        if j is not None:
+            if body.startswith('b"', i):
+                m = re.match(_BLIT, body[i:j])
+                if m:
+                    out.append(_LitMatch(i, j, m.group(1)))
+            i = j
+            continue
+        i += 1
+    return out
+
+
+class _LitMatch:
+    def __init__(self, a, b, text):
+        self.a, self.b, self.text = a, b, text
+
+    def start(self):
+        return self.a
+
+    def end(self):
+        return self.b
+
+    def group(self, k):
+        return self.text
+
+
 class FnEdit:
     def __init__(self, file, owner, name):
         self.file, self.owner, self.name = file, owner, name
@@ -320,6 +379,12 @@ class FnEdit:
         self.nloops = None
         self.ret = None
         self.tail = []
+        self.dropmacros = []
+        self.rewrites_re = []
+        self.bytes_consts = []
+        self.before_result = []
+        self.inline_lits = []
+        self.loopstarts = {}
 
     def apply(self, src):
         sig, body, line = find_fn(src, self.owner, self.name)
@@ -356,12 +421,18 @@ class FnEdit:
         ins = []  # (index, text, kind)
         reps = []  # (start, end, text)
         lps = loops_in(body)
+        lost = []
         if self.nloops is not None and len(lps) != self.nloops:
-            raise ExtractionError('%s: expected %d loops, found %d' % (self.name, self.nloops, len(lps)))
+            lost.append('expected %d loops, found %d (loop invariants not spliced)' % (self.nloops, len(lps)))
+            self.loops, self.loopstarts, self.loopends = {}, {}, {}
         for n, lines in self.loops.items():
             if n < 1 or n > len(lps):
                 raise ExtractionError('%s: loop %d not found (%d loops)' % (self.name, n, len(lps)))
             ins.append((lps[n - 1][1], '\n' + '\n'.join(lines) + '\n', 'loop'))
+        for n, lines in self.loopstarts.items():
+            if n < 1 or n > len(lps):
+                raise ExtractionError('%s: loop %d not found (%d loops)' % (self.name, n, len(lps)))
+            ins.append((lps[n - 1][1] + 1, '\n' + '\n'.join(lines) + '\n', 'loopstart'))
         for n, lines in self.loopends.items():
             if n < 1 or n > len(lps):
                 raise ExtractionError('%s: loop %d not found (%d loops)' % (self.name, n, len(lps)))
@@ -369,7 +440,8 @@ class FnEdit:
         for anchor, lines in self.afters:
             occ = find_code(body, anchor)
             if len(occ) != 1:
-                raise ExtractionError('%s: anchor %r occurs %d times' % (self.name, anchor, len(occ)))
+                lost.append('hint anchor %r occurs %d times (hint skipped)' % (anchor, len(occ)))
+                continue
             e = statement_end(body, occ[0])
             ins.append((e, '\n' + '\n'.join(lines) + '\n', 'after'))
         for old, new, cnt in self.rewrites:
@@ -382,9 +454,55 @@ class FnEdit:
         for text in self.drops:
             occ = find_code(body, text)
             if len(occ) != 1:
-                raise ExtractionError('%s: drop anchor %r occurs %d times' % (self.name, text, len(occ)))
+                lost.append('drop anchor %r occurs %d times (nothing dropped)' % (text, len(occ)))
+                continue
             reps.append((occ[0], occ[0] + len(text), '/* dropped: ' + text.replace('*/', '* /') + ' */'))
             log.append('drop %r' % text)
+        extra = {}
+        for anchor, lines in self.before_result:
+            stripped = body.rstrip()
+            if not stripped.endswith(anchor):
+                lost.append('body does not end with result expression %r (hint skipped)' % anchor)
+                continue
+            k = len(stripped) - len(anchor)
+            if k > 0 and (body[k - 1].isalnum() or body[k - 1] in '_.'):
+                raise ExtractionError('%s: result expression %r is not a whole expression' % (self.name, anchor))
+            ins.append((k, '\n'.join(lines) + '\n', 'before_result'))
+        for mac in self.dropmacros:
+            occ = find_code(body, mac)
+            if len(occ) != 1:
+                raise ExtractionError('%s: macro %r occurs %d times' % (self.name, mac, len(occ)))
+            ob = body.index('{', occ[0])
+            cb = match_close(body, ob)
+            extra.setdefault('dropped_macros', []).append({'macro': mac, 'text': body[occ[0]:cb + 1]})
+            reps.append((occ[0], cb + 1, '/* dropped macro block: %s {..} */' % mac))
+            log.append('drop macro block %s{..}' % mac)
+        for rx, tmpl, cnt in self.rewrites_re:
+            codeset = set(code_positions(body))
+            ms = [m for m in re.finditer(rx, body) if m.start() in codeset]
+            if len(ms) != cnt:
+                raise ExtractionError('%s: regex rewrite anchor %r occurs %d times, expected %d' % (self.name, rx, len(ms), cnt))
+            for m in ms:
+                reps.append((m.start(), m.end(), m.expand(tmpl)))
+            log.append('rewrite-re %r => %r (x%d)' % (rx, tmpl, cnt))
+        for lname in self.inline_lits:
+            ms = [m for m in find_inline_literals(body) if not re.search(r'const\s+\w+\s*:\s*&\[u8\]\s*=\s*$', body[:m.start()])]
+            if len(ms) != 1:
+                raise ExtractionError('%s: expected exactly one inline byte-string literal, found %d' % (self.name, len(ms)))
+            extra.setdefault('inline_lits', {})[lname] = decode_bytes_literal(ms[0].group(1))
+            reps.append((ms[0].start(), ms[0].end(), 'lit_%s()' % lname))
+            log.append('inline literal b"%s" replaced by lit_%s() whose ensures is generated from that literal' % (ms[0].group(1), lname))
+        for cname in self.bytes_consts:
+            rx = r'const\s+%s\s*:\s*&\[u8\]\s*=\s*b"((?:[^"\\]|\\.)*)"\s*;' % re.escape(cname)
+            ms = list(re.finditer(rx, body))
+            if len(ms) != 1:
+                raise ExtractionError('%s: byte-string const %s found %d times' % (self.name, cname, len(ms)))
+            lit = ms[0].group(1)
+            if '\\' in lit or not all(32 <= ord(c) < 127 for c in lit):
+                raise ExtractionError('%s: byte-string const %s is not plain ASCII' % (self.name, cname))
+            extra.setdefault('bytes_consts', {})[cname] = [ord(c) for c in lit]
+            reps.append((ms[0].start(), ms[0].end(), 'let %s: &[u8] = lit_%s();' % (cname, cname)))
+            log.append('byte-string const %s = b"%s" replaced by lit_%s() whose ensures is generated from that literal' % (cname, lit, cname))
         edits = [(i, i, t) for (i, t, _) in ins] + reps
         edits.sort(key=lambda e: (e[0], e[1]), reverse=True)
         last = len(body) + 1
@@ -398,7 +516,7 @@ class FnEdit:
         tail = '\n'.join(self.tail)
         text = '%s\n%s\n{\n%s\n%s\n%s}\n' % (sig, contract, entry, body, tail)
         return text, {'fn': '%s::%s' % (self.owner, self.name), 'file': self.file, 'line': line,
-                      'sig': orig_sig, 'body_bytes': len(orig_body), 'edits': log,
+                      'sig': orig_sig, 'body_bytes': len(orig_body), 'edits': log, 'extra': extra, 'lost_anchors': lost,
                       'body_sha': __import__('hashlib').sha256(orig_body.encode()).hexdigest()[:16]}
 
 
@@ -424,9 +542,50 @@ def expand_template(tmpl_text, read_repo, read_include=None):
             report.setdefault('includes', []).append(inc)
             i += 1
             continue
+        if st.startswith('//@lit '):
+            # //@lit <file> <owner> <fn> <CONST>: emit a trusted accessor for a byte-string literal found in that fn
+            _, f, owner, fn, cname = st.split()
+            _sig, body, line = find_fn(read_repo(f), owner, fn)
+            if cname.startswith('inline:'):
+                cname = cname[7:]
+                ms = [m for m in find_inline_literals(body) if not re.search(r'const\s+\w+\s*:\s*&\[u8\]\s*=\s*$', body[:m.start()])]
+                if len(ms) != 1:
+                    raise ExtractionError('lit %s: expected one inline literal in %s, found %d' % (cname, fn, len(ms)))
+                lit = ms[0].group(1)
+                bs = decode_bytes_literal(lit)
+                out.append('// generated from the inline literal b"%s" found in %s::%s (%s:%d); literal->bytes step is trusted' % (lit, owner, fn, f, line))
+                out.append('#[verifier::external_body]')
+                out.append("fn lit_%s() -> (r: &'static [u8])" % cname)
+                out.append('    ensures r@ == seq![%s],' % ', '.join('%du8' % b for b in bs))
+                out.append('{ b"%s" }' % lit)
+                report.setdefault('literals', []).append({'const': cname, 'bytes': lit, 'file': f})
+                i += 1
+                continue
+            rx = r'const\s+%s\s*:\s*&\[u8\]\s*=\s*b"((?:[^"\\]|\\.)*)"\s*;' % re.escape(cname)
+            ms = list(re.finditer(rx, body))
+            if len(ms) != 1:
+                raise ExtractionError('lit %s: found %d times in %s' % (cname, len(ms), fn))
+            lit = ms[0].group(1)
+            if '\\' in lit or not all(32 <= ord(c) < 127 for c in lit):
+                raise ExtractionError('lit %s is not plain ASCII' % cname)
+            out.append('// generated from the literal b"%s" found in %s::%s (%s:%d); literal->bytes step is trusted' % (lit, owner, fn, f, line))
+            out.append('#[verifier::external_body]')
+            out.append('fn lit_%s() -> (r: &\'static [u8])' % cname)
+            out.append('    ensures r@ == seq![%s],' % ', '.join('%du8' % ord(c) for c in lit))
+            out.append('{ b"%s" }' % lit)
+            report.setdefault('literals', []).append({'const': cname, 'bytes': lit, 'file': f})
+            i += 1
+            continue
         if st.startswith('//@type '):
-            _, f, name = st.split()
+            parts = st.split(None, 3)
+            f, name = parts[1], parts[2]
             text, line = find_type(read_repo(f), name)
+            if len(parts) > 3:
+                for m in re.finditer(_Q + r' => ' + _Q, parts[3]):
+                    old, new = _unq(m.group(1)), _unq(m.group(2))
+                    if text.count(old) != 1:
+                        raise ExtractionError('type %s: rewrite anchor %r occurs %d times' % (name, old, text.count(old)))
+                    text = text.replace(old, new)
             out.append('// extracted from %s:%d (attributes and doc comments dropped)' % (f, line))
             out.append(text)
             report['types'].append({'type': name, 'file': f, 'line': line})
@@ -465,10 +624,21 @@ def expand_template(tmpl_text, read_repo, read_include=None):
                     elif d.startswith('nloops '):
                         ed.nloops = int(d.split()[1])
                         cur = None
+                    elif d.startswith('loopstart '):
+                        cur = ed.loopstarts.setdefault(int(d.split()[1]), [])
+                    elif d.startswith('inline-lit '):
+                        ed.inline_lits.append(d.split()[1])
+                        cur = None
                     elif d.startswith('loopend '):
                         cur = ed.loopends.setdefault(int(d.split()[1]), [])
                     elif d.startswith('loop '):
                         cur = ed.loops.setdefault(int(d.split()[1]), [])
+                    elif d.startswith('before_result '):
+                        m = re.match(r'before_result ' + _Q + r'$', d)
+                        if not m:
+                            raise ExtractionError('bad directive: ' + s2)
+                        cur = []
+                        ed.before_result.append((_unq(m.group(1)), cur))
                     elif d.startswith('after '):
                         m = re.match(r'after ' + _Q + r'$', d)
                         if not m:
@@ -486,6 +656,19 @@ def expand_template(tmpl_text, read_repo, read_include=None):
                         if not m:
                             raise ExtractionError('bad directive: ' + s2)
                         ed.sig_rw.append((_unq(m.group(1)), _unq(m.group(2))))
+                        cur = None
+                    elif d.startswith('dropmacro '):
+                        m = re.match(r'dropmacro ' + _Q + r'$', d)
+                        ed.dropmacros.append(_unq(m.group(1)))
+                        cur = None
+                    elif d.startswith('rewrite-re '):
+                        m = re.match(r'rewrite-re ' + _Q + r' => ' + _Q + r'(?: x(\d+))?$', d)
+                        if not m:
+                            raise ExtractionError('bad directive: ' + s2)
+                        ed.rewrites_re.append((_unq(m.group(1)), _unq(m.group(2)), int(m.group(3) or 1)))
+                        cur = None
+                    elif d.startswith('bytes-const '):
+                        ed.bytes_consts.append(d.split()[1])
                         cur = None
                     elif d.startswith('drop '):
                         m = re.match(r'drop ' + _Q + r'$', d)
